@@ -452,6 +452,7 @@ def impl_hier(case):
 
         class Counter(HierarchyWalker):
             def __init__(self):
+                super().__init__()
                 self.n = 0
 
             def visit_instance(self, inst):
